@@ -106,6 +106,16 @@ func tagged(conn, msg, n int) []byte {
 	return b
 }
 
+// taggedRepeat is tagged(conn, 0, n) with only the first 8 bytes naming the
+// message: consecutive messages of one connection share almost all their
+// content, so a sender that keeps its LZ77 window refers back into the previous
+// message, and a receiver that lost or swapped its window cannot inflate it.
+func taggedRepeat(conn, msg, n int) []byte {
+	b := tagged(conn, 0, n)
+	copy(b, tagged(conn, msg, min(n, 8)))
+	return b
+}
+
 var boundaryLens = []int{0, 1, 2, 124, 125, 126, 127, 128, 4094, 4095, 4096, 4097, 4098, 8190, 8191, 8192, 8193, 8194, 32767, 32768, 32769, 65535, 65536, 65537}
 
 // genLen draws a message length: half boundary values, half uniform.
